@@ -213,7 +213,7 @@ pub fn aligned_sliders(p: &Pos, c: usize) -> u64 {
 
 /// The en-passant file matters to `same_position` exactly when a legal
 /// en-passant capture exists; reflexivity.
-pub fn c13_ep_effect<N: Nd>(n: &mut N, stm: u8) {
+pub fn c13_ep_effect<N: Nd>(n: &mut N, stm: u8, variant: u8) {
     let (p, half, full) = sym_accepted(n);
     n.assume(p.ep < 8);
     n.assume(stm > 1 || p.stm == stm);
@@ -227,10 +227,12 @@ pub fn c13_ep_effect<N: Nd>(n: &mut N, stm: u8) {
     n.assume(half2 <= 100 && full2 >= 1);
     let c = board_of(&q, half2, full2, h ^ ep_key(p.ep));
     let want = !refm::ep_capturable(&p);
-    assert!(b.same_position(&c) == want);
-    assert!(c.same_position(&b) == want);
-    assert!(b.same_position(&b));
-    assert!(c.same_position(&c));
+    // one call per query (each call runs is_legal up to four times)
+    match variant {
+        0 => assert!(b.same_position(&c) == want),
+        1 => assert!(c.same_position(&b) == want),
+        _ => assert!(b.same_position(&b)),
+    }
     vcover!(want && refm::pawn_att(bit(refm::ep_square(&p)), (p.stm ^ 1) as usize) & p.col[p.stm as usize] & p.pc[PAWN] != 0,
         "a capturing pawn exists but the capture is illegal");
     vcover!(want && refm::pawn_att(bit(refm::ep_square(&p)), (p.stm ^ 1) as usize) & p.col[p.stm as usize] & !p.pc[PAWN] != 0,
@@ -332,8 +334,8 @@ pub fn step_play<N: Nd>(n: &mut N, cube: u8, want: u8, a: u32) {
         let (ck, pin) = refm::checkers_and_pins(&np, np.stm as usize);
         assert!(b.checkers().0 == ck);
         assert!(b.pinned().0 == pin);
-        vcover!(ck.count_ones() == 2, "@step_(pawn|knight|bishop|rook|queen) double check");
-        vcover!(pin != 0 && ck != 0, "check and pin together");
+        vcover!(ck.count_ones() == 2, "@c03_step_(pawn|knight|bishop|rook|queen) double check");
+        vcover!(pin != 0 && ck != 0, "@c03_step check and pin together");
     }
     if want & WANT_C10 != 0 {
         let k = keys.as_ref().unwrap();
@@ -351,9 +353,10 @@ pub fn step_play<N: Nd>(n: &mut N, cube: u8, want: u8, a: u32) {
     vcover!(!refm::castle_same(&p.castle, &np.castle), "@step_(rook|king|castle) castling rights change");
 }
 
+#[macro_export]
 macro_rules! bproofs {
     ( $( $name:ident => $body:expr ; )* ) => {
-        crate::proofs! { $(
+        $crate::proofs! { $(
             #[kani::stub(cozy_chess::get_rook_moves, crate::stubs::rook_moves)]
             #[kani::stub(cozy_chess::get_bishop_moves, crate::stubs::bishop_moves)]
             #[kani::stub(cozy_chess::get_rook_rays, crate::stubs::rook_rays)]
@@ -458,8 +461,12 @@ bproofs! {
     c14_null_b_a8 => |n: &mut _| c14_null(n, 1, 8);
     c14_null_w_a16 => |n: &mut _| c14_null(n, 0, 16);
     c14_null_b_a16 => |n: &mut _| c14_null(n, 1, 16);
-    c13_ep_effect_w => |n: &mut _| c13_ep_effect(n, 0);
-    c13_ep_effect_b => |n: &mut _| c13_ep_effect(n, 1);
+    c13_ep_effect_w => |n: &mut _| c13_ep_effect(n, 0, 0);
+    c13_ep_effect_b => |n: &mut _| c13_ep_effect(n, 1, 0);
+    c13_ep_sym_w => |n: &mut _| c13_ep_effect(n, 0, 1);
+    c13_ep_sym_b => |n: &mut _| c13_ep_effect(n, 1, 1);
+    c13_ep_refl_w => |n: &mut _| c13_ep_effect(n, 0, 2);
+    c13_ep_refl_b => |n: &mut _| c13_ep_effect(n, 1, 2);
     c13_pair => |n: &mut _| c13_pair_body(n);
     c02_step_pawn_a2 => |n: &mut _| step_play(n, 0, WANT_C02 | WANT_CLOSURE, 2);
     c02_step_pawn_a16 => |n: &mut _| step_play(n, 0, WANT_C02 | WANT_CLOSURE, 16);
